@@ -60,15 +60,25 @@ UNIT_AVX2 = dict(driver='memory.cpp', defines=['QENTEM_AVX2=1', '__AVX2__=1'], c
 
 def jobs(tier):
     out = []
-    for cfg, unit, vb in ((('sse2', UNIT_SSE2, 16), ('avx2', UNIT_AVX2, 32)) if tier == 'thorough' else ()):
-        out.append(dict(name='Memory::Copy<unsigned int>.%s' % cfg, unit=unit, fn='Memory_Copy__unsigned_int', roots=['Qentem::Memory::Copy<unsigned int>'],
-                        specs={'Memory_Copy__unsigned_int': simd_copy_spec(vb)}, ghosts=GH, solver='cadical', timeout=600, split=40, cbmc_flags=['--slice-formula'], weight=8,
-                        must_have=['postcondition', 'loop_invariant_step', 'loop_decreases'],
-                        clause='byte copy (%s block loop + scalar tail): same contract as the scalar build, for every size' % cfg))
-        out.append(dict(name='Memory::SetToZero<unsigned int>.%s' % cfg, unit=unit, fn='Memory_SetToZero__unsigned_int', roots=['Qentem::Memory::SetToZero<unsigned int>'],
-                        specs={'Memory_SetToZero__unsigned_int': simd_zero_spec(vb)}, ghosts=GH, solver='cadical', timeout=600, split=40, cbmc_flags=['--slice-formula'], weight=8,
-                        must_have=['postcondition', 'loop_invariant_step', 'loop_decreases'],
-                        clause='zero fill (%s block loop + scalar tail): same contract as the scalar build, for every size' % cfg))
+    # SIMD builds.  The modular (all sizes) proof of the block loops does not fit in memory with the installed back ends
+    # (5 GB per obligation group); the stand-in is BOUNDED: every size 0..N bytes separately, contents symbolic.
+    N = 96 if tier == 'quick' else 320
+    for cfg, unit, vb in (('sse2', UNIT_SSE2, 16), ('avx2', UNIT_AVX2, 32)):
+        base = dict(unit=unit, mode='harness', ghosts=GH, solver='cadical', timeout=120, sweep=('size', list(range(0, N + 1))), sweep_par=8, weight=8,
+                    harness_K=N, harness_unwind=N + 2, bounded='every size 0..%d bytes (one CBMC run per size, symbolic contents, %s block loop + scalar tail)' % (N, cfg),
+                    must_have=['assertion'], cex_K=40, cex_unwind=44)
+        sp = copy_spec('')
+        sp.pop('loops')
+
+        out.append(dict(base, name='Memory::Copy<unsigned int>.%s.bounded' % cfg, fn='Memory_Copy__unsigned_int', roots=['Qentem::Memory::Copy<unsigned int>'],
+                        specs={'Memory_Copy__unsigned_int': sp},
+                        clause='byte copy in the %s build gives the same result as the scalar build (bounded: sizes 0..%d)' % (cfg, N)))
+        sz = zero_spec('')
+        sz.pop('loops')
+
+        out.append(dict(base, name='Memory::SetToZero<unsigned int>.%s.bounded' % cfg, fn='Memory_SetToZero__unsigned_int', roots=['Qentem::Memory::SetToZero<unsigned int>'],
+                        specs={'Memory_SetToZero__unsigned_int': sz},
+                        clause='zero fill in the %s build gives the same result as the scalar build (bounded: sizes 0..%d)' % (cfg, N)))
     for nt, nts in (('unsigned int', 'unsigned_int'),):
         out.append(dict(name='Memory::Copy<%s>.scalar' % nt, unit=UNIT, fn='Memory_Copy__%s' % nts, roots=['Qentem::Memory::Copy<%s>' % nt],
                         specs={'Memory_Copy__%s' % nts: copy_spec(nt)}, ghosts=GH, solver='cadical', timeout=300,
